@@ -12,6 +12,9 @@
    (tsvr HEDID NAME ATTRSTR DESC)
    (tsvfiles (0|1 x10))         section files a TSV save writes
    (lines S)                    SchemaLoaderWiki._open_file: the lines of a text
+   (rebuild ((LEVEL ID) ...))   long names the MediaWiki reader rebuilds from order and level
+   (xmlname TAG? S)             text of the name element Schema2XML writes
+   (mergelib (S S ...))         library header after merging the files, and can_save of it
    (xmln S)                     name part of xml2schema._get_element_tag_value
    (xmld S)                     description part of xml2schema._parse_node
    (tsve STRIP INCL NAME ATTRS DESC)  Schema2DF._write_entry row
@@ -92,7 +95,7 @@ let () = main_loop (fun x ->
      | Some l -> L [str_sx l; parsed_sx (read_entry_line fixed l); bool_sx (row_free_of_reserved fixed (sx_str nm) l)])
   | L [A "ok"; nm; a; d] ->
     L [bool_sx (name_ok (sx_str nm)); bool_sx (wiki_attr_ok (sx_attrs a)); bool_sx (desc_ok (sx_desc d));
-       bool_sx (attr_ok (sx_attrs a)); bool_sx (tsv_desc_ok (sx_desc d))]
+       bool_sx (attr_ok (sx_attrs a)); bool_sx (tsv_desc_ok (sx_desc d)); bool_sx (ename_ok (sx_str nm))]
   | L [A "tsvw"; st; nm; a; d] ->
     let r = tsv_write_tag_row (sx_bool st) (sx_str nm) (sx_attrs a) (sx_desc d) in
     let back = (match tsv_read_row fixed5 r with
@@ -106,6 +109,15 @@ let () = main_loop (fun x ->
     let rows_of k = (match List.find_opt (fun (s, _) -> s = k) tbl with Some (_, true) -> [[O]] | _ -> []) in
     L (List.map str_sx (files_written false (output_tables rows_of)))
   | L [A "lines"; t] -> L (List.map str_sx (open_file_lines (sx_str t)))
+  | L [A "rebuild"; ls] ->
+    (match rebuild_names [] (List.map (fun x -> match x with L [l; n] -> (sx_nat l, sx_nat n) | _ -> failwith "rebuild") (sx_list ls)) with
+     | Exn e -> L [A "exn"; exn_sx e]
+     | Ok names -> L [A "ok"; L (List.map nats_sx names)])
+  | L [A "xmlname"; tg; t] -> str_sx (xml_name_text (sx_bool tg) (sx_str t))
+  | L [A "mergelib"; libs] ->
+    (match List.map sx_str (sx_list libs) with
+     | first :: more -> let l = merged_library false first more in L [str_sx l; bool_sx (can_save l)]
+     | [] -> failwith "mergelib")
   | L [A "xmln"; t] -> str_sx (xml_read_name fixed5 (sx_str t))
   | L [A "xmld"; t] -> desc_sx (xml_read_desc fixed (sx_str t))
   | L [A "tsve"; st; incl; nm; a; d] ->
